@@ -584,6 +584,7 @@ class Executor:
             idx_name = (spec.index if spec is not None and spec.index else '$k')
             if itv is not None:
                 st.loc[idx_name] = vint(0)
+                st.loc['$iter'] = _IterBox(itv)
                 if itv[0] == 'dict':
                     st.assume(*sym.dict_wf(st.heap, itv[1].t))
             yield from self.unrolled(n, st, fr, itv, idx_name, 0)
@@ -597,6 +598,7 @@ class Executor:
         if itv is not None:
             st.loc[idx_name] = vint(0)
             st.loc['$it' + idx_name] = itv if not isinstance(itv, tuple) else _IterBox(itv)
+            st.loc['$iter'] = _IterBox(itv)        # iterated() in loop invariants: the collection being iterated
             if itv[0] == 'dict':
                 st.assume(*sym.dict_wf(st.heap, itv[1].t))
                 self.notes.add('A3: dict iteration order is a duplicate-free enumeration of its keys')
